@@ -499,6 +499,12 @@ func TestVerifC29_Fragment(t *testing.T) {
 						errs[c] = fmt.Errorf("%s: %v", co.op.String(), err)
 						return
 					}
+					if co.op.Kind == "topIDs" && ftype != FieldTypeSet && vkit.Open("DC6") {
+						// open finding DC6: on mutex/bool fragments top(ids) can see a
+						// moving Set() half-way; its counts are not constrained there
+						vkit.Excluded("DC6")
+						continue
+					}
 					if co.op.Kind == "topIDs" {
 						// each row's count is looked up separately: two reads in one interval
 						for r := uint64(0); r < vc29Rows; r++ {
